@@ -1,4 +1,5 @@
 import LentilVerif.Model.Basic
+import LentilVerif.Gen.RescaleGrid
 /-! Executable model of the sampling bookkeeping of `Plane.rescale`, `Plane.resample` and `util.rescale` (C17), generic in
 the value type; the interpolator (`scipy.ndimage.map_coordinates`) is a parameter with a stated contract. Mathlib-free. -/
 namespace Lentil.Resc
@@ -10,6 +11,16 @@ def outShape [Mul K] (ceil : K → Int) (ofInt : Int → K) (n : Int) (s : K) : 
 /-- `(arange(S) - S/2)/scale + n/2`: input-array coordinate at which output sample `j` is interpolated -/
 def coord [Add K] [Sub K] [Div K] (ofInt : Int → K) (two : K) (S n : Int) (s : K) (j : Int) : K :=
   (ofInt j - ofInt S / two) / s + ofInt n / two
+
+/-- the grid **as the source builds it** (regenerated `Gen.rescaleCeilArg/rescaleCoordY/rescaleCoordX`, tools/specs/c17.py):
+output shape of an `(n0, n1)` image and the (row, column) coordinate of output sample `(i, j)` -/
+def gridShape [Add K] [Sub K] [Mul K] [Div K] (ceil : K → Int) (ofInt : Int → K) (n0 n1 : Int) (s : K) : Int × Int :=
+  let a := Gen.rescaleCeilArg (ofInt n0) (ofInt n1) s
+  (ceil a.1, ceil a.2)
+def gridRow [Add K] [Sub K] [Mul K] [Div K] (ofInt : Int → K) (two : K) (S0 S1 n0 n1 : Int) (s : K) (i : Int) : K :=
+  Gen.rescaleCoordY (ofInt S0) (ofInt S1) (ofInt n0) (ofInt n1) s two (ofInt i)
+def gridCol [Add K] [Sub K] [Mul K] [Div K] (ofInt : Int → K) (two : K) (S0 S1 n0 n1 : Int) (s : K) (j : Int) : K :=
+  Gen.rescaleCoordX (ofInt S0) (ofInt S1) (ofInt n0) (ofInt n1) s two (ofInt j)
 
 /-- `Plane.rescale`: `plane._pixelscale = (px[0]/scale, px[1]/scale)` -/
 def pixelscale [Div K] (px s : K) : K := px / s
